@@ -100,8 +100,8 @@ def answer (kv : KV) : String :=
         match (kv.getD "hint" "0,none").splitOn "," with
         | [lo, hi] => (lo.toNat?.getD 0, hi.toNat?)
         | _ => (0, none)
-      simple (collectOp (kv.getD "boxed" "0" = "1") (kv.getD "try" "1" = "1") n hint
-        ⟨script, 0, faultIdx fault "poll"⟩)
+      simple (collectOpD (kv.getD "boxed" "0" = "1") (kv.getD "try" "1" = "1") n hint
+        ⟨script, 0, faultIdx fault "poll"⟩ bad)
     | _, _, _ =>
       let front := kv.natD "front" 0
       let back := kv.natD "back" n
